@@ -599,6 +599,11 @@ FIXED_TEXTS = [
     "SELECT a FROM t GROUP BY GROUPING SETS ( ROLLUP ( a ) , CUBE ( b ) )", "SELECT a FROM t GROUP BY GROUPING SETS ( GROUPING SETS ( a ) )", "SELECT a FROM t GROUP BY GROUPING", "SELECT a FROM t GROUP BY GROUPING ( a )",
     "SELECT a FROM t GROUP BY SETS ( a )", "SELECT a FROM t GROUP BY GROUPING SETS", "SELECT a FROM t GROUP BY GROUPING SETS (", "SELECT a FROM t GROUP BY GROUPING SETS ( (", "SELECT a FROM t GROUP BY GROUPING SETS ( a ) , GROUPING SETS ( ( ) , ( b ) ) FOR UPDATE",
     "SELECT a FROM t GROUP BY GROUPING SETS ( ( a ) ) WITH ROLLUP", "SELECT a FROM t GROUP BY ROLLUP ( GROUPING SETS ( a ) )", "SELECT a FROM t GROUP BY GROUPING SETS ( * )",
+    # words the three parsers compare by their text: a string literal / quoted identifier spelled like the keyword is taken for it (mirrored by the model)
+    "MERGE INTO t USING u ON a WHEN 'MATCHED' THEN DELETE", 'MERGE INTO t USING u ON a WHEN NOT "MATCHED" THEN INSERT DEFAULT VALUES', "MERGE INTO t 'USING' u ON a WHEN MATCHED THEN DELETE",
+    'MERGE INTO t "USING" u ON a WHEN MATCHED THEN DELETE', "MERGE INTO t USING u ON a WHEN NOT MATCHED BY 'SOURCE' THEN DELETE", 'MERGE INTO t USING u "ON" a WHEN MATCHED THEN DELETE',
+    "MERGE INTO t USING u 'x' ON a WHEN MATCHED THEN DELETE", "MERGE INTO t AS 'x' USING u ON a WHEN MATCHED THEN DELETE", 'MERGE INTO t USING u ON a WHEN MATCHED THEN UPDATE SET "a" . "b" = 1 , \'c\' = 2',
+    "SELECT a FROM t GROUP BY GROUPING 'SETS' ( a )", 'SELECT a FROM t GROUP BY GROUPING "sets" ( a )', "SELECT a FROM t GROUP BY GROUPING sets ( a )", "SELECT a FROM t FOR UPDATE 'OF' t", "SELECT a FROM t FOR UPDATE SKIP 'LOCKED'",
     "SELECT " + "( " * 98 + "a" + " )" * 98 + " FROM t", "SELECT " + "( " * 99 + "a" + " )" * 99 + " FROM t", "SELECT " + "NOT " * 99 + "a FROM t",
 ]
 
